@@ -299,9 +299,20 @@ def _walk_pairs(a, b, path, counters, out, problems):
         seq(aa.defaults, ba.defaults, path)
         seq([k for k in aa.kw_defaults if k is not None], [k for k in ba.kw_defaults if k is not None], path)
         inner = child_scope('lambda')
-        for x, y in zip(aa.posonlyargs + aa.args + aa.kwonlyargs + ([aa.vararg] if aa.vararg else []) + ([aa.kwarg] if aa.kwarg else []),
-                        ba.posonlyargs + ba.args + ba.kwonlyargs + ([ba.vararg] if ba.vararg else []) + ([ba.kwarg] if ba.kwarg else [])):
-            out.append((x.arg, y.arg, inner, 'parameter:lambda'))
+        for grp in ('posonlyargs', 'args', 'kwonlyargs'):
+            xs, ys = getattr(aa, grp), getattr(ba, grp)
+            if len(xs) != len(ys):
+                problems.append('signature of a lambda changed')
+                return
+            for x, y in zip(xs, ys):
+                # only what a caller can pass by keyword is part of the interface of a lambda
+                out.append((x.arg, y.arg, inner, 'parameter:posonlyargs' if grp == 'posonlyargs' else 'parameter:lambda'))
+        for grp in ('vararg', 'kwarg'):
+            x, y = getattr(aa, grp), getattr(ba, grp)
+            if (x is None) != (y is None):
+                problems.append('signature of a lambda changed')
+            elif x is not None:
+                out.append((x.arg, y.arg, inner, 'parameter:' + grp))
         _walk_pairs(a.body, b.body, inner, counters, out, problems)
         return
     if isinstance(a, ast.ClassDef):
